@@ -53,9 +53,24 @@ def build_and_observe(task: dict) -> dict:
         paths = [str(ds.path / s.file_infos[0].file_path) for s in ds.shard_info_iterator("train")]
         pos = {p: i + 1 for i, p in enumerate(paths)}
 
+        # ONE predicate object per dataset handle whose accepted set the caller changes between passes (the way a
+        # training script keeps one `keep(shard_info)` function and edits the set it looks at); even-numbered cells
+        # use a fresh closure instead, so both calling styles are exercised
+        accepted = set()
+
+        def shared_predicate(s):
+            return dsreal.md_name(s.custom_metadata) in accepted
+
+        ncell = [0]
+
         def mk_filter(cell):
             if cell["nofilter"]:
                 return None
+            ncell[0] += 1
+            if ncell[0] % 2:
+                accepted.clear()
+                accepted.update(cell["pred"])
+                return shared_predicate
             acc = set(cell["pred"])
             return lambda s: dsreal.md_name(s.custom_metadata) in acc
 
